@@ -68,6 +68,7 @@ def run_kani(cwd: str, harnesses: List[str], package: Optional[str] = None, jobs
     cmd += ["-Z", "function-contracts", "-Z", "stubbing", "-Z", "unstable-options", "--output-format", "terse", "-j", str(jobs)]
     if exact:
         cmd += ["--exact"]
+    cmd += ["--harness-timeout", os.environ.get("HVX_HARNESS_TIMEOUT", "900s")]
     cmd += (extra or [])
     for h in harnesses:
         cmd += ["--harness", h]
